@@ -1,9 +1,10 @@
 SPECIFICATION Spec
 CONSTANTS
   Buckets = {"m", "d"}
-  K = 4
-  MaxSteps = 10
+  K = 3
+  MaxSteps = 8
   SeedOnOpen = TRUE
+  SeedFromBucketMark = TRUE
   MetaKeepsMark = TRUE
 VIEW View
 CHECK_DEADLOCK FALSE
